@@ -16,6 +16,7 @@ type c12World struct {
 	n       *types.Named // type N []S
 	tree    *types.Named // type Tree []Tree
 	ring    *types.Named // type Ring [2]*Ring
+	dict    *types.Named // type Dict map[string]Dict
 	tm      *types.Named // time.Time look-alike
 	date    *types.Named // a local named time whose name contains a symbolic part
 	enums   enumsMap
@@ -26,9 +27,9 @@ type c12World struct {
 
 // c12Shape: a field type of bounded depth over the world's types.
 func (w *c12World) shape(tag string, depth int) types.Type {
-	n := 15
+	n := 16
 	if depth <= 0 {
-		n = 11
+		n = 12
 	}
 	kinds := []types.BasicKind{types.Int, types.String, types.Bool, types.Float64, types.Uint8}
 	switch vfChoice(tag+".shape", n) {
@@ -55,10 +56,12 @@ func (w *c12World) shape(tag string, depth int) types.Type {
 	case 10:
 		return w.ring
 	case 11:
-		return types.NewSlice(w.shape(tag+"[]", depth-1))
+		return w.dict // a cycle through a map
 	case 12:
-		return types.NewArray(w.shape(tag+"[n]", depth-1), int64(vfChoice(tag+".len", 3)))
+		return types.NewSlice(w.shape(tag+"[]", depth-1))
 	case 13:
+		return types.NewArray(w.shape(tag+"[n]", depth-1), int64(vfChoice(tag+".len", 3)))
+	case 14:
 		return types.NewMap(types.Typ[types.String], w.shape(tag+"{}", depth-1))
 	default:
 		return types.NewPointer(w.shape(tag+"*", depth-1))
@@ -143,6 +146,8 @@ func HC12_typeGraph() {
 	w.tree.SetUnderlying(types.NewSlice(w.tree))
 	w.ring = types.NewNamed(types.NewTypeName(0, lib, "Ring", nil), nil, nil)
 	w.ring.SetUnderlying(types.NewArray(types.NewPointer(w.ring), 2))
+	w.dict = types.NewNamed(types.NewTypeName(0, lib, "Dict", nil), nil, nil)
+	w.dict.SetUnderlying(types.NewMap(types.Typ[types.String], w.dict))
 	w.tm = c18TimeNamed("time", "time", "Time")
 	// a user-defined time type: it is a date iff its name contains "date" in any case
 	dname := "My" + vfString("timeName", 0, vfParam("C12.name", 4), "alpha") + "X"
